@@ -1,6 +1,76 @@
 import GluonModel.Sexp
 import GluonModel.LayoutAlgo
+import GluonModel.Tokenizer
 open GluonModel GluonModel.LayoutAlgo
+
+/-! ### Tokenizer requests: `(lex x<hex bytes>)` -/
+namespace LexDrv
+open GluonModel.Tokenizer
+
+def hexDigit (c : Char) : Option Nat :=
+  if '0' ≤ c ∧ c ≤ '9' then some (c.toNat - 48)
+  else if 'a' ≤ c ∧ c ≤ 'f' then some (c.toNat - 87)
+  else none
+
+def unhex : List Char → Array Nat → Option (Array Nat)
+  | [], acc => some acc
+  | a :: b :: r, acc =>
+    match hexDigit a, hexDigit b with
+    | some x, some y => unhex r (acc.push (x * 16 + y))
+    | _, _ => none
+  | _, _ => none
+
+def loc (l : GluonModel.Tokenizer.Loc) : String := s!"{l.line} {l.col} {l.abs}"
+
+def errName : ErrK → String
+  | .emptyCharLiteral => "emptyCharLiteral"
+  | .unexpectedChar c => s!"unexpectedChar:{c}"
+  | .unexpectedEof => "unexpectedEof"
+  | .unexpectedEscapeCode c => s!"unexpectedEscapeCode:{c}"
+  | .unterminatedCharLiteral => "unterminatedCharLiteral"
+  | .unterminatedStringLiteral => "unterminatedStringLiteral"
+  | .invalidRawStringDelimiter => "invalidRawStringDelimiter"
+  | .nonParseableInt => "nonParseableInt"
+  | .hexLiteralOverflow => "hexLiteralOverflow"
+  | .hexLiteralUnderflow => "hexLiteralUnderflow"
+  | .hexLiteralWrongPrefix => "hexLiteralWrongPrefix"
+  | .hexLiteralIncomplete => "hexLiteralIncomplete"
+
+def b01 (b : Bool) : String := if b then "1" else "0"
+
+def tokText : GluonModel.Tokenizer.Tok → String
+  | .shebang s e => s!"shebang {s} {e}"
+  | .ident s e => s!"ident {s} {e}"
+  | .op s e => s!"op {s} {e}"
+  | .str raw s e => s!"str {b01 raw} {s} {e}"
+  | .chr c => s!"chr {c}"
+  | .int v => s!"int {v}"
+  | .byte v => s!"byte {v}"
+  | .float _ _ => "float"
+  | .doc block s e => s!"doc {b01 block} {s} {e}"
+  | .kw k => "kw-" ++ k
+  | .punct p => p
+  | .eof => "eof"
+
+def item : Item → String
+  | .tok t => s!" ({loc t.s} {loc t.e} {tokText t.tok})"
+  | .err e => s!" (err {errName e.kind} {loc e.s} {loc e.e})"
+
+def render (st : Stream) : String :=
+  match st.fin with
+  | .panic _ => "panic"
+  | .hang => "hang"
+  | .fuel => "(fuel (items" ++ String.join (st.items.map item) ++ ") (errs" ++
+      String.join (st.errs.map fun e => s!" ({errName e.kind} {loc e.s} {loc e.e})") ++ "))"
+  | .eof l => s!"((eof {loc l}) (items" ++ String.join (st.items.map item) ++ ") (errs" ++
+      String.join (st.errs.map fun e => s!" ({errName e.kind} {loc e.s} {loc e.e})") ++ "))"
+
+def handle (h : String) : String :=
+  match unhex (h.toList.drop 1) #[] with
+  | some inp => render (tokenize inp)
+  | none => "bad-request"
+
+end LexDrv
 
 def kindOfName : String → Option Kind
   | "shebang" => some .shebang | "doc" => some .doc | "attrOpen" => some .attrOpen
@@ -48,6 +118,7 @@ def renderOut (ts : List Tok) : String :=
   String.join (ts.map fun t => " (" ++ kindName t.kind ++ " " ++ toString t.loc.abs ++ " " ++ toString t.stop ++ ")")
 
 def handle : List Sexp → String
+  | [.atom "lex", .atom h] => LexDrv.handle h
   | .atom "layout" :: fuel :: toks =>
     match fuel.toNat?, parseToks toks with
     | some fuel, some ts =>
